@@ -296,7 +296,9 @@ def explore(run, tier):
                                 cases.append(dict(c, keep=keep))
                         if kind == 'truncated' and n <= 6:
                             # every cut position inside record k (at least one byte of it survives, never all)
-                            for cut in range(1, len(good_record(k - 1, codec))):
+                            # (cut 0: the file ends right after the four length bytes of record k — nothing of the
+                            # record itself survives, and that is a record cut short like any other)
+                            for cut in range(0, len(good_record(k - 1, codec))):
                                 cases.append(dict(c, cut=cut))
     # faulty records far into a file (record numbers of four digits: the report names the number as a plain number)
     for n, k, kind in ((1000, 1000, 'badmti'), (1001, 1001, 'truncated'), (1203, 1001, 'badlen'), (1000, 999, 'oversized')):
